@@ -46,6 +46,10 @@ pub struct Agg {
     pub found: Vec<Found>,
     pub violating_runs: u64,
     pub busy_s: f64,
+    #[serde(default)]
+    pub cases: u64,
+    #[serde(default)]
+    pub cases_distinct: u64,
 }
 
 impl Agg {
@@ -82,6 +86,8 @@ impl Agg {
         self.found.extend(o.found);
         self.violating_runs += o.violating_runs;
         self.busy_s += o.busy_s;
+        self.cases += o.cases;
+        self.cases_distinct += o.cases_distinct;
     }
 }
 
@@ -103,6 +109,10 @@ fn absorb(agg: &mut Agg, plan: &Plan, idx: u64, r: &OneRun) {
     if r.co.nontrivial {
         agg.nontrivial += 1;
         agg.fingerprints.insert(r.out.world.fingerprint);
+    }
+    if let Some((c, d)) = r.co.cases {
+        agg.cases += c;
+        agg.cases_distinct += d;
     }
     agg.sim_ns += r.out.world.now as u128;
     agg.steps += r.out.world.steps;
@@ -588,8 +598,9 @@ fn write_evidence(prop: &Property, tier: Tier, base: u64, agg: &Agg, wall: f64, 
         "seed": base,
         "level": prop.level,
         "coverage": {
-            "evaluations": agg.evaluations,
-            "distinct_nontrivial": agg.fingerprints.len(),
+            "evaluations": if agg.cases > 0 { agg.cases } else { agg.evaluations },
+            "distinct_nontrivial": if agg.cases > 0 { agg.cases_distinct } else { agg.fingerprints.len() as u64 },
+            "simulated_executions": agg.evaluations,
             "rule": prop.rule,
             "samples": agg.samples,
             "nontrivial_runs": agg.nontrivial,
